@@ -11,7 +11,7 @@
 
 static int thorough;
 
-typedef struct { int ver, kx; uint16_t suite; int pmtu; const char *name; int eager; } pcfg_t;
+typedef struct { int ver, kx; uint16_t suite; int pmtu; const char *name; int eager; int tickets; int cmulti; } pcfg_t;
 static const pcfg_t pcfgs[] = {
     { V_DTLS12, KX_PSK, TLS_PSK_WITH_AES_128_CBC_SHA, 0, "dtls12-psk-cbc" },
     { V_DTLS10, KX_PSK, TLS_PSK_WITH_AES_128_CBC_SHA, 0, "dtls10-psk-cbc" },
@@ -23,6 +23,14 @@ static const pcfg_t pcfgs[] = {
        its final flight to the transport), whether or not the client has seen that flight */
     { V_DTLS12, KX_PSK, TLS_PSK_WITH_AES_128_CBC_SHA, 0, "dtls12-psk-cbc-server-speaks-first", 1 },
     { V_DTLS10, KX_RSA, TLS_RSA_WITH_AES_128_CBC_SHA, 0, "dtls10-rsa-server-speaks-first", 1 },
+    /* PMTU 300: the client's last flight is two datagrams, [ClientKeyExchange, ChangeCipherSpec] and [Finished]: the server
+       can be in state "waiting for Finished" of a FULL handshake when its timer fires or a duplicate arrives */
+    { V_DTLS12, KX_RSA, TLS_RSA_WITH_AES_128_CBC_SHA, 300, "dtls12-rsa-pmtu300" },
+    /* session tickets: the server's last flight is NewSessionTicket, ChangeCipherSpec, Finished */
+    { V_DTLS12, KX_RSA, TLS_RSA_WITH_AES_128_GCM_SHA256, 0, "dtls12-rsa-gcm-tickets", 0, 1 },
+    /* a client with DTLS 1.2 and 1.0 enabled against a DTLS-1.0-only server: the client's first flights carry record
+       version fe fd, the negotiated one is fe ff - retransmitted or duplicated ClientHellos arrive with the "wrong" version */
+    { V_DTLS10, KX_PSK, TLS_PSK_WITH_AES_128_CBC_SHA, 0, "dtls10-server-vs-dtls12+10-client", 0, 0, 1 },
 };
 #define NPCFG ((int) (sizeof(pcfgs) / sizeof(pcfgs[0])))
 
@@ -206,7 +214,7 @@ static void run_schedule(int pi, const devi_t *devs, int ndev, run_t *R, int *va
     memset(R, 0, sizeof(*R));
     *valid = 1;
     memset(&c, 0, sizeof(c));
-    c.ver = pc->ver; c.kx = pc->kx; c.suite = pc->suite; c.pmtu = pc->pmtu;
+    c.ver = pc->ver; c.kx = pc->kx; c.suite = pc->suite; c.pmtu = pc->pmtu; c.tickets = pc->tickets; c.dtls_cmulti = pc->cmulti;
     if (world_init(&R->w, &c) < 0)
     {
         *valid = 0;
@@ -444,7 +452,7 @@ static void run_window(int pi, int dir, int gap, int extra, mx_result_t *r)
     const char *sym = NULL;
     side_t *rs;
     memset(&c, 0, sizeof(c));
-    c.ver = pc->ver; c.kx = pc->kx; c.suite = pc->suite; c.pmtu = pc->pmtu;
+    c.ver = pc->ver; c.kx = pc->kx; c.suite = pc->suite; c.pmtu = pc->pmtu; c.tickets = pc->tickets; c.dtls_cmulti = pc->cmulti;
     r->nontrivial = 1;
     if (world_init(&w, &c) < 0 || world_handshake(&w) != 0)
     {
@@ -504,11 +512,122 @@ static void run_window(int pi, int dir, int gap, int extra, mx_result_t *r)
     world_free(&w);
 }
 
+/* An old-epoch datagram of the peer's handshake is replayed N times to a completed side that has not yet received
+ * application data (it answers each one by re-sending its last flight).  Afterwards that side's application datagrams must
+ * still reach the peer, and no two records on the wire may carry the same (epoch, sequence number). */
+static void run_epoch_replays(int pi, int victim, int n, mx_result_t *r)
+{
+    const pcfg_t *pc = &pcfgs[pi];
+    static world_t w;
+    wcfg_t c;
+    unsigned char *old = NULL;
+    int oldlen = 0, turn = 0, guard = 0, i, k, peer = 1 - victim;
+    uint64_t seen[8];
+    int nseen = 0;
+    const char *sym = NULL;
+    size_t before;
+    memset(&c, 0, sizeof(c));
+    c.ver = pc->ver; c.kx = pc->kx; c.suite = pc->suite; c.pmtu = pc->pmtu; c.tickets = pc->tickets; c.dtls_cmulti = pc->cmulti;
+    r->nontrivial = 1;
+    if (world_init(&w, &c) < 0)
+    {
+        goto internal;
+    }
+    world_collect(&w, 0);
+    while (guard++ < 60 && !(world_is_complete(&w, 0) && world_is_complete(&w, 1)))
+    {
+        wire_t *q = &w.wire[peer];
+        if (q->n > 0)
+        {
+            rec_t *x = &q->r[q->head];
+            if (x->len > 13 && x->p[3] == 0 && x->p[4] == 0 && x->p[0] == 22)
+            {
+                free(old);
+                old = malloc((size_t) x->len);
+                memcpy(old, x->p, (size_t) x->len);
+                oldlen = x->len;
+            }
+        }
+        if (!world_step(&w, &turn))
+        {
+            break;
+        }
+    }
+    world_pump(&w, 50);
+    if (!(world_is_complete(&w, 0) && world_is_complete(&w, 1)) || !old)
+    {
+        goto internal;
+    }
+    world_wire_clear(&w, 0); world_wire_clear(&w, 1);
+    for (i = 0; i < n; i++)
+    {
+        world_feed(&w, victim, old, oldlen);
+        world_wire_clear(&w, victim);      /* whatever it re-sends is lost */
+        if (w.s[victim].err_rc < 0)
+        {
+            sym = "fatal-error-from-replayed-handshake-datagram";
+            break;
+        }
+    }
+    r->transitions = (uint32_t) n;
+    before = w.s[peer].delivered.len;
+    for (k = 0; k < 3 && !sym; k++)
+    {
+        unsigned char msg[16];
+        wire_t *q = &w.wire[victim];
+        memset(msg, 0x61 + k, sizeof(msg));
+        if (world_app_send(&w, victim, msg, 16) <= 0)
+        {
+            sym = "application-data-can-no-longer-be-sent-after-replays";
+            break;
+        }
+        for (i = 0; i < q->n; i++)
+        {
+            rec_t *x = &q->r[(q->head + i) % W_MAXREC];
+            uint64_t es = 0;
+            int j;
+            if (x->len < 13 || x->p[0] != 23) continue;
+            for (j = 3; j < 11; j++) es = (es << 8) | x->p[j];
+            for (j = 0; j < nseen; j++)
+            {
+                if (seen[j] == es) sym = "two-records-with-the-same-epoch-and-sequence-number";
+            }
+            if (nseen < 8) seen[nseen++] = es;
+        }
+        world_pump(&w, 20);
+    }
+    if (!sym && w.s[peer].delivered.len != before + 48)
+    {
+        sym = "application-data-no-longer-delivered-after-replays";
+    }
+    snprintf(r->outcome, sizeof(r->outcome), "%s:epoch-replays:%s:%s", pc->name, victim ? "server" : "client", sym ? sym : "ok");
+    r->trace_hash = world_trace_hash(&w);
+    if (sym)
+    {
+        r->violation = 1;
+        snprintf(r->key, sizeof(r->key), "%s|old-epoch-replays|victim=%s|%s", pc->name, victim ? "server" : "client", sym);
+        snprintf(r->what, sizeof(r->what), "%s: the peer's last epoch-0 handshake datagram replayed %d times to the completed %s (no application data received yet), then 3 application datagrams => %s",
+            pc->name, n, victim ? "server" : "client", sym);
+    }
+    free(old);
+    world_free(&w);
+    return;
+internal:
+    r->violation = 2;
+    snprintf(r->key, sizeof(r->key), "epoch-setup-failed|%s", pc->name);
+    snprintf(r->what, sizeof(r->what), "handshake for the epoch-replay script failed");
+}
+
 static void run_case(void *ctx, mx_result_t *r)
 {
     case_t *c = ctx;
     static run_t R;
     int valid;
+    if (c->ndev == -2)
+    {
+        run_epoch_replays(c->pi, c->d[0].step, c->d[0].kind, r);
+        return;
+    }
     if (c->ndev == -1)
     {
         run_window(c->pi, c->d[0].step, c->d[0].kind, c->d[0].a, r);
@@ -540,6 +659,13 @@ static void run_group(long gi, void *unused)
         if (mx_deadline_hit())
         {
             return;
+        }
+        if (c->ndev == -2)
+        {
+            snprintf(desc, sizeof(desc), "p=%d;n=-2;d0=%d.%d.0;d1=0.0.0 (%s: %d replays of an old-epoch handshake datagram to the completed %s)", c->pi, c->d[0].step, c->d[0].kind,
+                pcfgs[c->pi].name, c->d[0].kind, c->d[0].step ? "server" : "client");
+            mx_fork_case(desc, run_case, c);
+            continue;
         }
         if (c->ndev == -1)
         {
@@ -591,6 +717,12 @@ int main(int argc, char **argv)
         }
         memset(&r, 0, sizeof(r));
         snprintf(r.desc, sizeof(r.desc), "%s", replay);
+        if (c.ndev == -2)
+        {
+            run_epoch_replays(c.pi, c.d[0].step, c.d[0].kind, &r);
+            mx_replay_print(&r);
+            return 0;
+        }
         if (c.ndev == -1)
         {
             run_window(c.pi, c.d[0].step, c.d[0].kind, c.d[0].a, &r);
@@ -653,6 +785,16 @@ int main(int argc, char **argv)
                         add_case(pi, -1, a, none);
                     }
                 }
+            }
+        }
+        if (pcfgs[pi].pmtu == 0 && !pcfgs[pi].eager)
+        {
+            /* 700 (thorough 70000) replays: past the 510 at which a byte-wise epoch counter wraps, and past 65536 */
+            int v;
+            for (v = 0; v < 2; v++)
+            {
+                devi_t a = { v, thorough ? 70000 : 700, 0 };
+                add_case(pi, -2, a, none);
             }
         }
         if (thorough && pcfgs[pi].kx == KX_PSK)
